@@ -444,11 +444,40 @@ def refusal_obligations(prop="C19"):
     a, b = idx(lambda s: "normalise_paths(" in s), idx(lambda s: "srcdir.parents" in s or ".parents" in s)
     out.append(OR(id=f"{prop}.S.refusal.paths_normalised_first", status=PROVED if (a is not None and b is not None and a < b) else REFUTED, kind="S", role="pre", backend="ast",
                   target="ford.parse_arguments", desc="normalise_paths() runs before the refusal check"))
-    pi = loader.find_def("ford.settings", "ProjectSettings.__post_init__")
-    ok = any(ast.unparse(n).replace(" ", "") == "self.exclude_dir.append(self.output_dir)" for n in ast.walk(pi) if isinstance(n, ast.Expr))
-    out.append(OR(id=f"{prop}.S.settings.output_dir_excluded_from_discovery", status=PROVED if ok else REFUTED, kind="S", role="post", backend="ast",
-                  target="ford.settings.ProjectSettings.__post_init__", desc="the output directory is added to exclude_dir"))
+    out += output_dir_excluded(prop)
     out.append(normalise_path_resolves(prop, "the refusal compares such paths component-wise"))
+    return out
+
+
+def output_dir_excluded(prop, replay=None):
+    """the output directory never takes part in the search for source files: ProjectSettings.__post_init__ appends it to exclude_dir unconditionally (a statement of the
+    function body, not under a branch), and parse_arguments does so again for the final value once the command line has been applied and the paths are normalised"""
+    out = []
+    pi = loader.find_def("ford.settings", "ProjectSettings.__post_init__")
+    ok = any(isinstance(n, ast.Expr) and ast.unparse(n).replace(" ", "") == "self.exclude_dir.append(self.output_dir)" for n in pi.body)
+    r = OR(id=f"{prop}.S.settings.output_dir_excluded_from_discovery", status=PROVED if ok else REFUTED, kind="S", role="post", backend="ast",
+           target="ford.settings.ProjectSettings.__post_init__", desc="the output directory is added to exclude_dir whatever exclude_dir held before")
+    if not ok:
+        r.detail = "no unconditional `self.exclude_dir.append(self.output_dir)` in __post_init__"
+        r.replay = replay() if replay else None
+    out.append(r)
+    try:
+        pa = [n for n in ast.walk(ast.parse(open(os.path.join(os.path.dirname(loader.module_path("ford.output")), "__init__.py"), encoding="utf-8").read()))
+              if isinstance(n, ast.FunctionDef) and n.name == "parse_arguments"][0]
+        body = pa.body
+        inorm = next((i for i, st in enumerate(body) if "normalise_paths(" in ast.unparse(st)), None)
+        iapp = next((i for i, st in enumerate(body) if "exclude_dir.append(proj_data.output_dir)" in ast.unparse(st).replace(" ", "")), None)
+        ok2 = inorm is not None and iapp is not None and iapp > inorm
+        if ok2 and isinstance(body[iapp], ast.If):
+            ok2 = ast.unparse(body[iapp].test).replace(" ", "") == "proj_data.output_dirnotinproj_data.exclude_dir"
+    except Exception as e:
+        ok2 = False
+    r2 = OR(id=f"{prop}.S.parse_arguments.final_output_dir_excluded_from_discovery", status=PROVED if ok2 else REFUTED, kind="S", role="post", backend="ast", target="ford.parse_arguments",
+            desc="after the command line has been applied and the paths are normalised, the output directory in force is in exclude_dir")
+    if not ok2:
+        r2.detail = "parse_arguments does not add the final output_dir to exclude_dir after normalise_paths()"
+        r2.replay = replay() if replay else None
+    out.append(r2)
     return out
 
 
